@@ -65,15 +65,28 @@ func runWith(data []byte, ch gen.Chunking, set int) (res runResult, p any) {
 	p = oracle.Catch(func() {
 		var opts []fit.DecodeOption
 		var lg *captureLogger
-		if set&1 != 0 {
-			lg = &captureLogger{}
-			opts = append(opts, fit.WithLogger(lg))
+		// the options of a set are passed in an order that depends on the
+		// input (all six orders occur), and on some inputs the first one is
+		// passed a second time at the end: a set is a set
+		order := [][3]int{{1, 2, 4}, {1, 4, 2}, {2, 1, 4}, {2, 4, 1}, {4, 1, 2}, {4, 2, 1}}[(len(data)+set)%6]
+		for _, bit := range order {
+			if set&bit == 0 {
+				continue
+			}
+			switch bit {
+			case 1:
+				if lg == nil {
+					lg = &captureLogger{}
+				}
+				opts = append(opts, fit.WithLogger(lg))
+			case 2:
+				opts = append(opts, fit.WithUnknownFields())
+			case 4:
+				opts = append(opts, fit.WithUnknownMessages())
+			}
 		}
-		if set&2 != 0 {
-			opts = append(opts, fit.WithUnknownFields())
-		}
-		if set&4 != 0 {
-			opts = append(opts, fit.WithUnknownMessages())
+		if len(opts) > 1 && (len(data)/6+set)%4 == 3 {
+			opts = append(opts, opts[0])
 		}
 		r := gen.NewReader(data, ch)
 		f, err := fit.Decode(r, opts...)
@@ -266,6 +279,9 @@ func check(rec *hx.Recorder, c optCase, labels map[string]int) (string, bool) {
 			var err error
 			lg := &captureLogger{}
 			opts := []fit.DecodeOption{fit.WithUnknownFields(), fit.WithUnknownMessages()}
+			if len(data)%2 == 1 {
+				opts[0], opts[1] = opts[1], opts[0]
+			}
 			if set&1 != 0 {
 				opts = append(opts, fit.WithLogger(lg))
 			}
